@@ -33,12 +33,12 @@ type Ob struct {
 // Ctx collects the obligations of one property check.
 type Ctx struct {
 	*Program
-	Prop   string
-	Obs    []Ob
-	min    map[string]int // rule -> expected minimum instance count
-	rules  map[string]string
+	Prop      string
+	Obs       []Ob
+	min       map[string]int // rule -> expected minimum instance count
+	rules     map[string]string
 	ruleOrder []string
-	Notes  []string
+	Notes     []string
 }
 
 func NewCtx(p *Program, prop string) *Ctx {
@@ -146,12 +146,12 @@ type Result struct {
 }
 
 type RunInfo struct {
-	Tier     string
-	Seed     int
-	Start    time.Time
-	VerifDir string
-	Configs  []string // build configurations analysed
-	Extra    map[string]any
+	Tier        string
+	Seed        int
+	Start       time.Time
+	VerifDir    string
+	Configs     []string // build configurations analysed
+	Extra       map[string]any
 	Explanation string
 	Assumptions []string
 }
@@ -256,7 +256,7 @@ func (c *Ctx) Finish(ri RunInfo, findings []Finding) int {
 		"undecided":           len(und),
 		"evaluations":         len(c.Obs),
 		"distinct_nontrivial": len(nontriv),
-		"rule": "one obligation per (rule, construct, slot) found in the resolved program of /repo's working tree; non-trivial = decided by a path, dataflow, guard-set or table-agreement argument rather than by mere existence; distinct = distinct obligation keys. Rules and instance counts: " + strings.Join(ruleTxt, " "),
+		"rule":                "one obligation per (rule, construct, slot) found in the resolved program of /repo's working tree; non-trivial = decided by a path, dataflow, guard-set or table-agreement argument rather than by mere existence; distinct = distinct obligation keys. Rules and instance counts: " + strings.Join(ruleTxt, " "),
 		"rules":               rows,
 		"samples":             samples,
 		"packages_analysed":   c.rootPaths(),
